@@ -239,6 +239,21 @@ def innermost_se_frame(tb):
     return fn, ln
 
 
+def is_harness_exc(e):
+    """True when the innermost frame of the exception is inside /verif: a bug of the
+    machinery that surfaced inside a library call, never a finding."""
+    tb = e.__traceback__
+    last = None
+    while tb is not None:
+        last = tb.tb_frame.f_code.co_filename
+        tb = tb.tb_next
+    return bool(last) and os.path.abspath(last).startswith(VERIF_DIR + os.sep)
+
+
+class HarnessFault(Exception):
+    pass
+
+
 def exc_sig(e):
     fn, ln = innermost_se_frame(e.__traceback__)
     return type(e).__name__, fn
@@ -282,6 +297,9 @@ class StepCounter:
         self.count += 1
         if self.budget is not None and self.count > self.budget:
             self.exceeded = True
+            # raise once: generators being closed while this unwinds must not trip over it again
+            sys.monitoring.set_events(self.TOOL, 0)
+            self.active = False
             raise StepBudgetExceeded()
 
     def start(self, budget=None):
